@@ -915,3 +915,517 @@ Proof.
   - rewrite out_uids_app. unfold out_uids at 2. cbn [flat_map fst]. rewrite Hn. now rewrite !app_nil_r.
   - intros id Hin. destruct (Jr _ Hin) as (rg & R1 & R2). exists rg. split; [exact R1 | now apply sdat_ranges_app_some].
 Qed.
+
+(* ================================================================== keys / names / event part of the invariant *)
+
+Definition exts (P : list (string * val)) : list string :=
+  flat_map (fun p : val * val => map fst (filter (fun kv : string * val => is_external (snd kv)) (dict_of (snd p)))) (descriptors P).
+Definition ints (P : list (string * val)) : list string :=
+  flat_map (fun p : val * val => map fst (filter (fun kv : string * val => negb (is_external (snd kv))) (dict_of (snd p)))) (descriptors P).
+
+Record K (P : list (string * val)) (x : mst) : Prop := {
+  k_E : forall k, mem_str k (ext_keys (ns x)) = mem_str k (exts P);
+  k_I : forall k, mem_str k (int_keys (ns x)) = mem_str k (ints P);
+  k_names : forall du, vget du (desc_names (ns x)) = vget du (descriptor_names P);
+  k_ev : out_uids "event" (out x) = map (fun e => get_or "uid" e VNone) (expand_events P)
+}.
+
+Lemma mem_str_app : forall k a b, mem_str k (a ++ b) = mem_str k a || mem_str k b.
+Proof. induction a as [|x a IH]; intros b; simpl; [reflexivity|]. now rewrite IH, orb_assoc. Qed.
+
+Lemma mem_str_filter_keys : forall want k dks,
+  mem_str k (map fst (filter (fun kv : string * val => Bool.eqb (is_external (snd kv)) want) dks)) = has_key_ext want k dks.
+Proof.
+  intros want k dks. unfold has_key_ext. induction dks as [|[k0 v] dks IH]; simpl; [reflexivity|].
+  destruct (Bool.eqb (is_external v) want); simpl; rewrite IH.
+  - now rewrite andb_true_r.
+  - now rewrite andb_false_r.
+Qed.
+
+Lemma filter_ext_true : forall dks, filter (fun kv : string * val => is_external (snd kv)) dks =
+                                    filter (fun kv : string * val => Bool.eqb (is_external (snd kv)) true) dks.
+Proof. intros. apply filter_ext. intros [k v]. simpl. now destruct (is_external v). Qed.
+Lemma filter_ext_false : forall dks, filter (fun kv : string * val => negb (is_external (snd kv))) dks =
+                                     filter (fun kv : string * val => Bool.eqb (is_external (snd kv)) false) dks.
+Proof. intros. apply filter_ext. intros [k v]. simpl. now destruct (is_external v). Qed.
+
+Lemma descriptors_app : forall a b, descriptors (a ++ b) = descriptors a ++ descriptors b.
+Proof. intros. unfold descriptors. apply flat_map_app. Qed.
+Lemma descriptor_names_app : forall a b, descriptor_names (a ++ b) = descriptor_names a ++ descriptor_names b.
+Proof. intros. unfold descriptor_names. apply flat_map_app. Qed.
+Lemma expand_events_app : forall a b, expand_events (a ++ b) = expand_events a ++ expand_events b.
+Proof. intros. unfold expand_events. apply flat_map_app. Qed.
+Lemma datum_frames_app : forall a b, datum_frames (a ++ b) = datum_frames a ++ datum_frames b.
+Proof. intros. unfold datum_frames. apply flat_map_app. Qed.
+Lemma passthrough_uids_app : forall a b, passthrough_uids (a ++ b) = passthrough_uids a ++ passthrough_uids b.
+Proof. intros. unfold passthrough_uids. apply flat_map_app. Qed.
+Lemma exts_app : forall a b, exts (a ++ b) = exts a ++ exts b.
+Proof. intros. unfold exts. rewrite descriptors_app. apply flat_map_app. Qed.
+Lemma ints_app : forall a b, ints (a ++ b) = ints a ++ ints b.
+Proof. intros. unfold ints. rewrite descriptors_app. apply flat_map_app. Qed.
+
+Lemma vget_app : forall k a b, vget k (a ++ b) = match vget k a with Some v => Some v | None => vget k b end.
+Proof. induction a as [|[k1 v1] a IH]; intros b; simpl; [reflexivity|]. destruct (atom_eqb k k1); auto. Qed.
+
+Lemma keys_overlap_spec : forall G, keys_overlap G = false ->
+  forall k, mem_str k (exts G) = true -> mem_str k (ints G) = false.
+Proof.
+  intros G H k Hk. unfold keys_overlap in H. fold (exts G) in H. fold (ints G) in H.
+  destruct (mem_str k (ints G)) eqn:E; [|reflexivity]. exfalso.
+  assert (X : existsb (fun k0 => mem_str k0 (ints G)) (exts G) = true).
+  { apply existsb_exists. exists k. split; [|exact E].
+    clear -Hk. induction (exts G) as [|y l IH]; simpl in *; [discriminate|].
+    destruct (String.eqb k y) eqn:Ey; [apply String.eqb_eq in Ey; subst; now left | right; auto]. }
+  congruence.
+Qed.
+
+Lemma mem_str_in : forall k l, In k l -> mem_str k l = true.
+Proof.
+  induction l as [|y l IH]; simpl; intros H; [contradiction|]. destruct H as [->|H].
+  - now rewrite String.eqb_refl.
+  - rewrite IH by assumption. apply orb_true_r.
+Qed.
+
+Lemma vget_descriptors_exts : forall P du dksv k spec, vget du (descriptors P) = Some dksv ->
+  dget k (dict_of dksv) = Some spec ->
+  (is_external spec = true -> mem_str k (exts P) = true) /\ (is_external spec = false -> mem_str k (ints P) = true).
+Proof.
+  intros P du dksv k spec V G. destruct (vget_in _ _ _ V) as (k' & I & _).
+  assert (Ik : In (k, spec) (dict_of dksv)).
+  { clear -G. induction (dict_of dksv) as [|[k0 v0] l IH]; simpl in *; [discriminate|].
+    destruct (String.eqb k k0) eqn:E; [apply String.eqb_eq in E; inversion G; subst; now left | right; auto]. }
+  split; intros X; apply mem_str_in; [unfold exts | unfold ints]; apply in_flat_map; exists (k', dksv); (split; [exact I|]);
+    simpl; apply (in_map fst _ (k, spec)); apply filter_In; (split; [exact Ik|]); simpl; now rewrite X.
+Qed.
+
+(* the handler's notion of "external reference" coincides with the descriptor's, for an Event whose
+   keys are declared by its descriptor, when no key name is both internal and external *)
+Lemma ext_filter_eq : forall G P post x du dksv data fl,
+  G = P ++ post -> keys_overlap G = false -> K P x ->
+  vget du (descriptors P) = Some dksv -> keys_subset data (dict_of dksv) = true ->
+  filter (fun kv : string * val => mem_str (fst kv) (ext_keys (ns x)) &&
+                                   negb (in_event_keys (int_keys (ns x)) (ext_keys (ns x)) fl (fst kv))) data =
+  filter (fun kv : string * val =>
+            match dget (fst kv) (dict_of dksv) with
+            | Some spec => is_external spec && negb (truthy (get_or (fst kv) fl (VBool false)))
+            | None => false
+            end) data.
+Proof.
+  intros G P post x du dksv data fl EG NO [KE KI _ _] V KS. apply filter_ext_in. intros [k v] Hin. simpl.
+  unfold keys_subset in KS. rewrite forallb_forall in KS. specialize (KS _ Hin). simpl in KS.
+  unfold dhas in KS. destruct (dget k (dict_of dksv)) as [spec|] eqn:Gk; [|discriminate].
+  destruct (vget_descriptors_exts _ _ _ _ _ V Gk) as [H1 H2].
+  assert (Mono : forall l, mem_str k l = true -> forall l', mem_str k (l ++ l') = true)
+    by (intros l Hl l'; rewrite mem_str_app, Hl; reflexivity).
+  unfold in_event_keys. rewrite !KE, !KI.
+  destruct (is_external spec) eqn:Ex.
+  - rewrite (H1 eq_refl). cbn [andb].
+    assert (XI : mem_str k (ints P) = false).
+    { assert (X := keys_overlap_spec G NO k). subst G. rewrite exts_app, ints_app in X.
+      specialize (X (Mono _ (H1 eq_refl) _)). rewrite mem_str_app in X. now apply orb_false_iff in X as [X _]. }
+    rewrite XI. cbn [andb orb]. unfold get_or. reflexivity.
+  - assert (XE : mem_str k (exts P) = false).
+    { destruct (mem_str k (exts P)) eqn:E; [|reflexivity]. exfalso.
+      assert (X := keys_overlap_spec G NO k). subst G. rewrite exts_app, ints_app in X.
+      specialize (X (Mono _ E _)). rewrite (Mono _ (H2 eq_refl) _) in X. discriminate. }
+    rewrite XE. reflexivity.
+Qed.
+
+Lemma event_split_has_dicts : forall i e d r, event_split i e d = inl r ->
+  exists data fl, dget "data" d = Some (VDict data) /\ dget "filled" d = Some (VDict fl).
+Proof.
+  intros i e d r E. unfold event_split in E.
+  destruct (event_rename_one "time" d) as [d1|] eqn:R1; [|discriminate].
+  destruct (event_rename_one_spec _ _ _ R1 eq_refl eq_refl eq_refl) as (data & fl & A1 & A2 & _). eauto.
+Qed.
+
+Lemma rb_kvs_get_none : forall rb kv kv' k, rb_kvs rb kv = Some kv' -> dget k kv = None -> dget k kv' = None.
+Proof.
+  induction kv as [|[k0 v0] kv IH]; intros kv' k R G; simpl in *.
+  - inversion R. reflexivity.
+  - destruct (rb v0); [|discriminate]. destruct (rb_kvs rb kv) eqn:Rr; [|discriminate]. inversion R; subst. simpl.
+    destruct (String.eqb k k0); [discriminate | eauto].
+Qed.
+
+Lemma snap_uid : forall f s kv snap, allnoref kv = true -> readback f s (VDict kv) = Some snap ->
+  get_or "uid" (dict_of snap) VNone = get_or "uid" kv VNone.
+Proof.
+  intros f s kv snap N R. rewrite readback_dict in R. destruct (rb_kvs _ kv) as [kv'|] eqn:Rk; [|discriminate].
+  inversion R; subst snap. cbn [dict_of]. unfold get_or. destruct (dget "uid" kv) as [u|] eqn:G.
+  - rewrite (rb_kvs_get _ _ _ _ _ _ Rk G (allnoref_dget _ _ _ N G)). reflexivity.
+  - now rewrite (rb_kvs_get_none _ _ _ _ Rk G).
+Qed.
+
+Definition dn_of (names : list (val * val)) (du : val) : string :=
+  match vget du names with Some (VStr s) => s | _ => "" end.
+
+(* an Event document *)
+Lemma event_step : forall G P post t ref x x' nfS SP C Darr,
+  G = P ++ ("event", t) :: post -> keys_overlap G = false ->
+  J (datum_frames G) x nfS SP C (passthrough_uids P) Darr -> K P x ->
+  reads (st x) ref t -> noref t = true ->
+  h_event ref x = (x', inl tt) ->
+  let d := dict_of t in
+  let du := get_or "descriptor" d VNone in
+  let items := ext_items_of (descriptors G) d in
+  (match vget du (descriptors P) with
+   | Some dks => keys_subset (dict_of (get_or "data" d (VDict []))) (dict_of dks) = true
+   | None => False end) ->
+  reserved_free (dict_of (get_or "data" d (VDict []))) = true ->
+  reserved_free (dict_of (get_or "filled" d (VDict []))) = true ->
+  nodup_atoms (map snd items) = true ->
+  (forall kid u, In kid items -> In u (map fst SP) -> atom_eqb (snd kid) u = false) ->
+  (forall kid u, In kid items -> In u (passthrough_uids P) -> atom_eqb u (snd kid) = false) ->
+  (forall kid f, In kid items -> vget (snd kid) (datum_frames G) = Some (VInt f) -> In (snd kid) Darr) ->
+  exists C',
+    J (datum_frames G) x' (fst (spec_items (datum_frames G) (dn_of (descriptor_names G) du) (get_or "seq_num" d VNone) nfS items))
+      (SP ++ snd (spec_items (datum_frames G) (dn_of (descriptor_names G) du) (get_or "seq_num" d VNone) nfS items))
+      C' (passthrough_uids (P ++ [("event", t)])) Darr /\
+    K (P ++ [("event", t)]) x' /\ st x' = st x.
+Proof.
+  intros G P post t ref x x' nfS SP C Darr EG NO Jx Kx R Nt E d du items HD RF1 RF2 ND Fresh HPT Late.
+  apply (h_event_ok _ _ _ _ R) in E. unfold h_event_tree in E.
+  apply bind_inl in E as (y & d' & G0 & E). apply lift_inl in G0 as [-> G0].
+  destruct t; try discriminate. inversion G0; subst d'. cbn [dict_of] in d. subst d. rename kv into d.
+  apply bind_inl in E as (y & n & G1 & E). apply get_ns_inl in G1 as [-> ->].
+  apply bind_inl in E as (y & sp & G2 & E). apply lift_inl in G2 as [-> G2].
+  destruct sp as [[[ev ext] du'] sq].
+  destruct (event_split_has_dicts _ _ _ _ G2) as (data & fl & Gd & Gf).
+  assert (Xd : dict_of (get_or "data" d (VDict [])) = data) by (unfold get_or; now rewrite Gd).
+  assert (Xf : dict_of (get_or "filled" d (VDict [])) = fl) by (unfold get_or; now rewrite Gf).
+  rewrite Xd in *. rewrite Xf in *.
+  destruct (event_split_free _ _ _ _ _ _ _ _ _ Gd Gf RF1 RF2 G2) as (Eext & Edu & Esq & Euid).
+  fold du in Edu. subst du'.
+  destruct (vget du (descriptors P)) as [dksv|] eqn:Vd; [|contradiction].
+  assert (VG : vget du (descriptors G) = Some dksv) by (subst G; rewrite descriptors_app, vget_app, Vd; reflexivity).
+  assert (Items : items = ext).
+  { subst items ext. unfold ext_items_of. fold du. rewrite VG, Xd, Xf. symmetry.
+    eapply ext_filter_eq; eauto. }
+  apply bind_inl in E as (y & u & G3 & E). apply emit_inl in G3 as (snap & Rs & ->).
+  assert (Jx' := J_emit_other _ _ _ _ _ _ _ "event" snap eq_refl Jx).
+  rewrite noref_dict in Nt.
+  assert (Uid : get_or "uid" (dict_of snap) VNone = get_or "uid" d VNone).
+  { assert (Nev : allnoref ev = true).
+    { clear -G2 Nt Gd Gf RF1 RF2. destruct (reserved_free_spec _ RF1) as (A1 & A2 & _ & _).
+      destruct (reserved_free_spec _ RF2) as (B1 & B2 & _ & _). unfold event_split in G2.
+      rewrite (event_rename_one_free "time" d data fl Gd Gf A1 B1) in G2. cbn [ebind] in G2.
+      rewrite (event_rename_one_free "seq_num" d data fl Gd Gf A2 B2) in G2. cbn [ebind] in G2.
+      rewrite Gf in G2. cbn [as_dict ebind] in G2. unfold egetitem, eopt in G2.
+      rewrite dget_ddel_other in G2 by reflexivity. rewrite Gd in G2. cbn [as_dict ebind] in G2.
+      rewrite dget_ddel_other in G2 by reflexivity.
+      destruct (dget "timestamps" d) as [[]|] eqn:Gt; try discriminate. cbn [as_dict ebind] in G2.
+      inversion G2; subst ev.
+      assert (Nd : allnoref data = true) by (rewrite <- noref_dict; exact (allnoref_dget _ _ _ Nt Gd)).
+      assert (Nts : allnoref kv = true) by (rewrite <- noref_dict; exact (allnoref_dget _ _ _ Nt Gt)).
+      apply allnoref_dset; [apply allnoref_dset; [now apply allnoref_ddel|]|]; rewrite noref_dict; now apply allnoref_filter. }
+    rewrite (snap_uid _ _ _ _ Nev Rs). unfold get_or. now rewrite Euid. }
+  rewrite <- Items in E.
+  destruct (items_step (datum_frames G) d du sq (dn_of (descriptor_names G) du) Darr (passthrough_uids P) items
+              _ nfS SP C x' Jx' E ND Fresh HPT Late) as (C' & J' & S' & I' & X' & N' & O').
+  { intros dn Hdn. cbn [ns upd_out] in Hdn. rewrite (k_names _ _ Kx) in Hdn. unfold dn_of.
+    subst G. rewrite descriptor_names_app, vget_app, Hdn. reflexivity. }
+  exists C'. rewrite Esq in J'.
+  assert (PTeq : passthrough_uids (P ++ [("event", VDict d)]) = passthrough_uids P).
+  { rewrite passthrough_uids_app. cbn. now rewrite app_nil_r. }
+  rewrite PTeq. split; [exact J'|]. split; [|exact S'].
+  destruct Kx as [KE KI KN KV]. constructor.
+  - intros k. rewrite X'. cbn. rewrite KE. rewrite exts_app. unfold exts at 2. cbn. now rewrite app_nil_r.
+  - intros k. rewrite I'. cbn. rewrite KI. rewrite ints_app. unfold ints at 2. cbn. now rewrite app_nil_r.
+  - intros du0. rewrite N'. cbn. rewrite KN, descriptor_names_app. cbn. now rewrite app_nil_r.
+  - rewrite O'. cbn [out upd_out]. rewrite out_uids_app. unfold out_uids at 2. cbn. rewrite Uid.
+    rewrite KV, expand_events_app, map_app. reflexivity.
+Qed.
+
+(* ------------------------------------------------------------------ documents that only touch other parts of the state *)
+
+Lemma J_transport : forall frames x x' nfS SP C PTP Darr name snap,
+  String.eqb name "stream_datum" = false ->
+  datum_cache (ns x') = datum_cache (ns x) -> ext_refs (ns x') = ext_refs (ns x) ->
+  next_frame (ns x') = next_frame (ns x) -> (out x' = out x \/ out x' = out x ++ [(name, snap)]) ->
+  J frames x nfS SP C PTP Darr -> J frames x' nfS SP C PTP Darr.
+Proof.
+  intros frames x x' nfS SP C PTP Darr name snap Hn Hc Hr Hf Ho [Ji Jn Jc Js Ja Jr Jp Jm].
+  assert (OU : out_uids "stream_datum" (out x') = out_uids "stream_datum" (out x)).
+  { destruct Ho as [->| ->]; [reflexivity|]. rewrite out_uids_app. unfold out_uids at 2. cbn [flat_map fst].
+    rewrite Hn. now rewrite !app_nil_r. }
+  constructor; rewrite ?Hc, ?Hr, ?Hf, ?OU; auto.
+  - unfold inv. now rewrite Hc.
+  - intros id Hin. destruct (Jr _ Hin) as (rg & R1 & R2). exists rg. split; [exact R1|].
+    destruct Ho as [->| ->]; [exact R2 | now apply sdat_ranges_app_some].
+Qed.
+
+Lemma K_transport : forall P doc x x',
+  descriptors [doc] = [] -> descriptor_names [doc] = [] -> expand_events [doc] = [] ->
+  int_keys (ns x') = int_keys (ns x) -> ext_keys (ns x') = ext_keys (ns x) -> desc_names (ns x') = desc_names (ns x) ->
+  out_uids "event" (out x') = out_uids "event" (out x) ->
+  K P x -> K (P ++ [doc]) x'.
+Proof.
+  intros P doc x x' D1 D2 D3 HI HE HN HO [KE KI KN KV].
+  assert (X1 : exts [doc] = []) by (unfold exts; rewrite D1; reflexivity).
+  assert (X2 : ints [doc] = []) by (unfold ints; rewrite D1; reflexivity).
+  constructor.
+  - intros k. rewrite HE, KE, exts_app, X1. now rewrite app_nil_r.
+  - intros k. rewrite HI, KI, ints_app, X2. now rewrite app_nil_r.
+  - intros du. rewrite HN, KN, descriptor_names_app, D2. now rewrite app_nil_r.
+  - rewrite HO, KV, expand_events_app, D3. now rewrite app_nil_r.
+Qed.
+
+Lemma vget_nodup_in : forall l k v, nodup_atoms (map fst l) = true -> In (k, v) l -> vget k l = Some v.
+Proof.
+  induction l as [|[k1 v1] l IH]; intros k v ND I; [contradiction|]. simpl map in ND.
+  destruct (nodup_atoms_cons _ _ ND) as (A & D & ND'). simpl. destruct I as [I | I].
+  - inversion I; subst. now rewrite atom_eqb_refl.
+  - rewrite atom_eqb_sym, (D k) by (apply (in_map fst _ (k, v)); exact I). now apply IH.
+Qed.
+
+Lemma frame_ids_datum : forall kv id, dget "datum_id" kv = Some id -> frame_val kv <> VNone ->
+  frame_ids "datum" (VDict kv) = [id].
+Proof.
+  intros kv id G F. unfold frame_ids. cbn. unfold frame_val, get_or in F. rewrite G.
+  destruct (dget "datum_kwargs" kv) as [[]|]; try (cbn in F; congruence). cbn [dict_of] in F.
+  destruct (dget "frame" kv0) as [[]|]; try reflexivity; congruence.
+Qed.
+
+(* a Datum document *)
+Lemma datum_step : forall G P post t ref x x' nfS SP C PTP seen,
+  G = P ++ ("datum", t) :: post -> nodup_atoms (map fst (datum_frames G)) = true ->
+  J (datum_frames G) x nfS SP C PTP (map fst (datum_frames P)) -> K P x ->
+  reads (st x) ref t -> h_datum Deep ref x = (x', inl tt) ->
+  (forall u, In u (map fst SP) -> existsb (atom_eqb u) seen = true) ->
+  existsb (fun id => existsb (atom_eqb id) seen) (frame_ids "datum" t) = false ->
+  J (datum_frames G) x' nfS SP C PTP (map fst (datum_frames (P ++ [("datum", t)]))) /\
+  K (P ++ [("datum", t)]) x' /\ st x' = st x.
+Proof.
+  intros G P post t ref x x' nfS SP C PTP seen EG ND Jx Kx R E Seen NoLate.
+  destruct (keeps_h_datum_deep ref _ _ _ (j_inv _ _ _ _ _ _ _ Jx) E) as (_ & Ji' & _).
+  destruct (h_datum_ok _ _ _ _ R E) as (kv & id & -> & Gid & Aid & ->).
+  assert (DF : datum_frames [("datum", VDict kv)] = [(id, frame_val kv)]).
+  { unfold datum_frames. cbn. rewrite Gid. reflexivity. }
+  assert (Tab : vget id (datum_frames G) = Some (frame_val kv)).
+  { apply vget_nodup_in; [exact ND|]. subst G. rewrite datum_frames_app. apply in_or_app. right.
+    change (("datum", VDict kv) :: post) with ([("datum", VDict kv)] ++ post). rewrite datum_frames_app, DF. now left. }
+  split; [|split; [|reflexivity]].
+  - destruct Jx as [Ji Jn Jc Js Ja Jr Jp Jm]. rewrite datum_frames_app, DF, map_app. cbn [map fst].
+    constructor; cbn [ns upd_ns out st datum_cache with_datum_cache ext_refs next_frame]; auto.
+    + apply Forall_vset; auto.
+      * exists kv. cbn. auto.
+      * intros k' v' _ Eq. apply atom_eqb_eq in Eq. subst k'. exists kv. cbn. auto.
+    + intros id' k' du' sq' Hin. destruct (Jp _ _ _ _ Hin) as [P1 P2]. split; [exact P1|].
+      intros dd Vd. destruct (atom_eqb id' id) eqn:Eq.
+      * apply atom_eqb_eq in Eq. subst id'. rewrite vget_vset_same in Vd by exact Aid. inversion Vd; subst dd.
+        exists kv. split; [reflexivity|].
+        destruct (frame_val kv) eqn:FV; try reflexivity; exfalso;
+          (assert (FI : frame_ids "datum" (VDict kv) = [id]) by (apply frame_ids_datum; [exact Gid | congruence]));
+          rewrite FI in NoLate; cbn in NoLate; rewrite orb_false_r in NoLate;
+          (assert (S1 : existsb (atom_eqb id) seen = true)
+             by (apply Seen; eapply Permutation_in; [exact Ja|]; apply in_or_app; right;
+                 apply (in_map ref_id _ (id, k', du', sq')); exact Hin)); congruence.
+      * rewrite vget_vset_other in Vd by exact Eq. now apply P2.
+    + intros id' Hin. apply in_app_or in Hin as [Hin | [<- | []]].
+      * destruct (Jm _ Hin) as [Hc | Hc]; [|now right]. left.
+        destruct (atom_eqb id' id) eqn:Eq.
+        -- apply atom_eqb_eq in Eq. subst. rewrite vget_vset_same by exact Aid. discriminate.
+        -- now rewrite vget_vset_other by exact Eq.
+      * left. rewrite vget_vset_same by exact Aid. discriminate.
+  - apply (K_transport P ("datum", VDict kv) x); auto.
+Qed.
+
+Lemma h_descriptor_shape : forall ref t x x', reads (st x) ref t -> h_descriptor ref x = (x', inl tt) ->
+  exists d0 dks0, t = VDict d0 /\ dget "data_keys" d0 = Some (VDict dks0).
+Proof.
+  intros ref t x x' R E. unfold h_descriptor in E.
+  apply bind_inl in E as (y & c & D & E). apply deepcopy_inl in D as [-> D].
+  unfold reads in R. rewrite R in D. inversion D; subst c; clear D.
+  apply bind_inl in E as (y & d & D & E). apply lift_inl in D as [-> D]. destruct t; try discriminate. inversion D; subst d.
+  apply bind_inl in E as (y & d1 & D1 & E). apply lift_inl in D1 as [-> D1].
+  unfold desc_rename_one, ebind, egetitem, eopt in D1.
+  destruct (dget "data_keys" kv) as [v|] eqn:Gk; [|discriminate]. cbn in D1.
+  destruct v; try discriminate. eauto.
+Qed.
+
+Lemma names_keys : forall P, map fst (descriptor_names P) = map fst (descriptors P).
+Proof.
+  induction P as [|[n d] P IH]; [reflexivity|]. unfold descriptor_names, descriptors in *. cbn [flat_map].
+  rewrite !map_app, IH. destruct (String.eqb n "descriptor"); reflexivity.
+Qed.
+
+Lemma vget_none_of_keys : forall k l, (forall u, In u (map fst l) -> atom_eqb k u = false) -> vget k l = None.
+Proof.
+  induction l as [|[k1 v1] l IH]; intros H; [reflexivity|]. simpl. rewrite (H k1) by (simpl; auto).
+  apply IH. intros u Hu. apply H. simpl. auto.
+Qed.
+
+Lemma nodup_atoms_app_mid : forall a x b, nodup_atoms (a ++ x :: b) = true ->
+  is_atom x = true /\ forall u, In u a -> atom_eqb x u = false.
+Proof.
+  induction a as [|y a IH]; intros x b H.
+  - simpl app in H. destruct (nodup_atoms_cons _ _ H) as (A & _ & _). split; [exact A | intros u []].
+  - simpl app in H. destruct (nodup_atoms_cons _ _ H) as (Ay & Dy & H'). destruct (IH _ _ H') as [Ax Dx].
+    split; [exact Ax|]. intros u [<- | Hu]; [|now apply Dx]. rewrite atom_eqb_sym. apply Dy. apply in_or_app. right. now left.
+Qed.
+
+(* a descriptor document *)
+Lemma descriptor_step : forall G P post t ref x x' nfS SP C PTP Darr,
+  G = P ++ ("descriptor", t) :: post -> nodup_atoms (map fst (descriptors G)) = true ->
+  reserved_free (dict_of (get_or "data_keys" (dict_of t) (VDict []))) = true ->
+  J (datum_frames G) x nfS SP C PTP Darr -> K P x ->
+  reads (st x) ref t -> h_descriptor ref x = (x', inl tt) ->
+  J (datum_frames G) x' nfS SP C PTP Darr /\ K (P ++ [("descriptor", t)]) x' /\ st x' = st x.
+Proof.
+  intros G P post t ref x x' nfS SP C PTP Darr EG ND RF Jx Kx R E.
+  destruct (h_descriptor_shape _ _ _ _ R E) as (d0 & dks0 & -> & Gk).
+  assert (Xk : dict_of (get_or "data_keys" (dict_of (VDict d0)) (VDict [])) = dks0) by (cbn; unfold get_or; now rewrite Gk).
+  rewrite Xk in RF.
+  destruct (h_descriptor_ok _ _ _ _ _ R Gk RF E) as (snap & uid & name & O & S & Gu & Au & Gn & DN & HE & HI & Hc & Hr & Hf).
+  split; [|split; [|exact S]].
+  - eapply (J_transport _ x x' _ _ _ _ _ "descriptor" snap); eauto.
+  - destruct Kx as [KE KI KN KV].
+    assert (DD : descriptors [("descriptor", VDict d0)] = [(uid, VDict dks0)]).
+    { unfold descriptors. cbn. unfold get_or. now rewrite Gu, Gk. }
+    assert (NN : descriptor_names [("descriptor", VDict d0)] = [(uid, name)]).
+    { unfold descriptor_names. cbn. unfold get_or. now rewrite Gu, Gn. }
+    assert (X1 : exts [("descriptor", VDict d0)] = map fst (filter (fun kv : string * val => is_external (snd kv)) dks0)).
+    { unfold exts. rewrite DD. cbn [flat_map snd dict_of]. apply app_nil_r. }
+    assert (X2 : ints [("descriptor", VDict d0)] = map fst (filter (fun kv : string * val => negb (is_external (snd kv))) dks0)).
+    { unfold ints. rewrite DD. cbn [flat_map snd dict_of]. apply app_nil_r. }
+    constructor.
+    + intros k. rewrite HE, KE, exts_app, X1.
+      rewrite mem_str_app, filter_ext_true, mem_str_filter_keys. reflexivity.
+    + intros k. rewrite HI, KI, ints_app, X2.
+      rewrite mem_str_app, filter_ext_false, mem_str_filter_keys. reflexivity.
+    + intros du. rewrite DN, descriptor_names_app, NN, vget_app.
+      assert (Fresh : vget uid (descriptor_names P) = None).
+      { apply vget_none_of_keys. rewrite names_keys. subst G. rewrite descriptors_app in ND.
+        change (("descriptor", VDict d0) :: post) with ([("descriptor", VDict d0)] ++ post) in ND.
+        rewrite descriptors_app, DD, map_app in ND. cbn [app map fst] in ND.
+        now destruct (nodup_atoms_app_mid _ _ _ ND). }
+      destruct (atom_eqb du uid) eqn:Eq.
+      * apply atom_eqb_eq in Eq. subst du. rewrite vget_vset_same by exact Au. rewrite Fresh. cbn. now rewrite atom_eqb_refl.
+      * rewrite vget_vset_other by exact Eq. rewrite KN. cbn. rewrite Eq. now destruct (vget du (descriptor_names P)).
+    + rewrite O, out_uids_app. unfold out_uids at 2. cbn. rewrite app_nil_r, KV, expand_events_app. cbn. now rewrite app_nil_r.
+Qed.
+
+(* start / resource / stream_resource: nothing the statement looks at changes *)
+Lemma quiet_step : forall G P name t x x' nfS SP C PTP Darr snap,
+  (name = "start" \/ name = "resource" \/ name = "stream_resource") ->
+  datum_cache (ns x') = datum_cache (ns x) -> ext_refs (ns x') = ext_refs (ns x) -> next_frame (ns x') = next_frame (ns x) ->
+  int_keys (ns x') = int_keys (ns x) -> ext_keys (ns x') = ext_keys (ns x) -> desc_names (ns x') = desc_names (ns x) ->
+  (out x' = out x \/ out x' = out x ++ [(name, snap)]) ->
+  J (datum_frames G) x nfS SP C PTP Darr -> K P x ->
+  J (datum_frames G) x' nfS SP C PTP Darr /\ K (P ++ [(name, t)]) x'.
+Proof.
+  intros G P name t x x' nfS SP C PTP Darr snap Hn Hc Hr Hf HI HE HN Ho Jx Kx.
+  assert (N1 : String.eqb name "stream_datum" = false) by (destruct Hn as [->|[->| ->]]; reflexivity).
+  assert (N2 : String.eqb name "event" = false) by (destruct Hn as [->|[->| ->]]; reflexivity).
+  split; [eapply (J_transport _ x x' _ _ _ _ _ name snap); eauto|].
+  apply (K_transport P (name, t) x); auto; try (destruct Hn as [->|[->| ->]]; reflexivity).
+  destruct Ho as [->| ->]; [reflexivity|]. rewrite out_uids_app. unfold out_uids at 2. cbn [flat_map fst].
+  rewrite N2. cbn. now rewrite ?app_nil_r.
+Qed.
+
+(* a StreamDatum document passes through *)
+Lemma stream_datum_step : forall G P t ref x x' nfS SP C Darr,
+  J (datum_frames G) x nfS SP C (passthrough_uids P) Darr -> K P x ->
+  reads (st x) ref t -> h_stream_datum ref x = (x', inl tt) ->
+  J (datum_frames G) x' nfS SP C (passthrough_uids (P ++ [("stream_datum", t)])) Darr /\
+  K (P ++ [("stream_datum", t)]) x' /\ st x' = st x.
+Proof.
+  intros G P t ref x x' nfS SP C Darr Jx Kx R E.
+  rewrite (h_stream_datum_ok _ _ _ _ R E). split; [|split; [|reflexivity]].
+  - destruct Jx as [Ji Jn Jc Js Ja Jr Jp Jm]. constructor; cbn [ns upd_out out st]; auto.
+    + rewrite out_uids_app, passthrough_uids_app. unfold out_uids at 2, passthrough_uids at 2. cbn. rewrite ?app_nil_r.
+      rewrite <- app_assoc. eapply perm_trans; [apply Permutation_app_tail; exact Js|].
+      rewrite <- !app_assoc. apply Permutation_app_head. apply Permutation_app_comm.
+    + intros id Hin. destruct (Jr _ Hin) as (rg & R1 & R2). exists rg. split; [exact R1 | now apply sdat_ranges_app_some].
+  - apply (K_transport P ("stream_datum", t) x); auto. cbn [out upd_out]. rewrite out_uids_app. unfold out_uids at 2. cbn.
+    now rewrite app_nil_r.
+Qed.
+
+(* ================================================================== the stop document *)
+
+Lemma stop_item_full : forall id k du sq x x',
+  inv (ns x) ->
+  (forall dd, vget id (datum_cache (ns x)) = Some dd -> exists kv, dd = VDict kv /\ dget "datum_id" kv = Some id /\ frame_val kv = VNone) ->
+  stop_item (id, k, du, sq) x = (x', inl tt) ->
+  is_atom id = true /\
+  exists l kvs e,
+    ns x' = with_emitted (with_datum_cache (ns x) (vdel id (datum_cache (ns x)))) e /\
+    out x' = out x ++ l ++ [("stream_datum", VDict kvs)] /\
+    (l = [] \/ exists s, l = [("stream_resource", s)]) /\
+    dget "uid" kvs = Some id /\ dget "indices" kvs = Some (range_doc (fst (noframe_rg sq)) (snd (noframe_rg sq))) /\
+    dget "seq_nums" kvs = Some (range_doc (fst (noframe_rg sq) + 1) (snd (noframe_rg sq) + 1)).
+Proof.
+  intros id k du sq x x' I CK E. unfold stop_item in E.
+  apply bind_inl in E as (x1 & od & E1 & E).
+  unfold pop_datum in E1.
+  apply bind_inl in E1 as (y & kk & G & E1). apply lift_inl in G as [-> G].
+  unfold hashable in G. destruct (is_atom id) eqn:Aid; [|discriminate]. inversion G; subst kk; clear G.
+  apply bind_inl in E1 as (y & n & G & E1). apply get_ns_inl in G as [-> ->].
+  split; [reflexivity|].
+  destruct (vget id (datum_cache (ns x))) as [dd|] eqn:V.
+  - apply bind_inl in E1 as (y & u1 & G & E1). apply put_ns_inl in G as ->.
+    apply ret_inl in E1 as [-> ->].
+    destruct (cache_vget _ _ _ I V) as [N Dd]. destruct (CK _ eq_refl) as (kv & -> & Gid & FV).
+    assert (T : truthy (VDict kv) = true) by (destruct kv; [discriminate | reflexivity]).
+    rewrite T in E.
+    apply bind_inl in E as (x2 & [sres sdat] & E3 & E).
+    apply convert_datum_spec in E3 as (C1 & C2 & C3 & (t & C4) & did & suid & i0 & i1 & C5 & C6 & C7 & C8); [|assumption].
+    destruct (C8 (frame_val_no_frame _ FV)) as (C9 & q & -> & -> & ->).
+    apply emit_converted_spec in E as (l & snap & F1 & F2 & F3 & F4 & F5 & (e & F6)).
+    rewrite Gid in C5. inversion C5; subst did. subst sdat.
+    rewrite noref_dict in N. assert (Nd : noref id = true) by exact (allnoref_dget _ _ _ N Gid).
+    destruct (snap_of_sdat _ _ _ _ _ _ _ _ Nd F3) as (kvs & -> & S1 & S2 & S3).
+    exists l, kvs, e. cbn [noframe_rg fst snd]. repeat split; auto.
+    + rewrite F6, C9. reflexivity.
+    + rewrite F1, C2. reflexivity.
+  - apply ret_inl in E1 as [-> ->]. exfalso. exact (fail_inl _ _ _ _ _ E).
+Qed.
+
+Lemma stop_loop : forall frames SP PTP R x C x',
+  inv (ns x) -> Forall (cache_entry_ok frames) (datum_cache (ns x)) ->
+  Permutation (out_uids "stream_datum" (out x)) (PTP ++ C) ->
+  (forall id, In id C -> exists rg, rget id SP = Some rg /\ sdat_ranges id (out x) = Some (rg, ((fst rg + 1)%Z, (snd rg + 1)%Z))) ->
+  (forall r, In r R -> rget (ref_id r) SP = Some (noframe_rg (snd r)) /\
+      (forall dd, vget (ref_id r) (datum_cache (ns x)) = Some dd -> exists kv, dd = VDict kv /\ frame_val kv = VNone)) ->
+  nodup_atoms (map ref_id R) = true ->
+  (forall r u, In r R -> In u (PTP ++ C) -> atom_eqb u (ref_id r) = false) ->
+  forM R stop_item x = (x', inl tt) ->
+  Permutation (out_uids "stream_datum" (out x')) (PTP ++ C ++ map ref_id R) /\
+  (forall id, In id (C ++ map ref_id R) -> exists rg, rget id SP = Some rg /\
+       sdat_ranges id (out x') = Some (rg, ((fst rg + 1)%Z, (snd rg + 1)%Z))) /\
+  out_uids "event" (out x') = out_uids "event" (out x) /\ next_frame (ns x') = next_frame (ns x) /\ st x' = st x.
+Proof.
+  intros frames SP PTP R; induction R as [|[[[id k] du] sq] R IH]; intros x C x' I Jc Js Jr Jp ND Dis E.
+  - simpl in E. apply ret_inl in E as [-> _]. simpl. rewrite app_nil_r. auto.
+  - simpl in E. apply bind_inl in E as (x1 & u & E1 & E). destruct u.
+    simpl map in ND. destruct (nodup_atoms_cons _ _ ND) as (Aid & Dist & ND').
+    destruct (keeps_stop_item (id, k, du, sq) _ _ _ I E1) as (S1 & I1 & _).
+    destruct (Jp (id, k, du, sq) (or_introl eq_refl)) as [P1 P2]. cbn [ref_id fst snd] in P1, P2.
+    destruct (stop_item_full id k du sq x x1 I) as (_ & l & kvs & e & Nx & Ox & L & U1 & U2 & U3); auto.
+    { intros dd V. destruct (cache_vget_ok _ _ _ _ Jc V) as (kv & -> & Gid & _).
+      destruct (P2 _ V) as (kv' & Ekv & FV). inversion Ekv; subst kv'. eauto. }
+    assert (OU : out_uids "stream_datum" (out x1) = out_uids "stream_datum" (out x) ++ [id]).
+    { rewrite Ox, !out_uids_app. rewrite (out_uids_sres_only _ _ L) by reflexivity.
+      unfold out_uids at 2. cbn. unfold get_or. now rewrite U1. }
+    destruct (IH x1 (C ++ [id]) x') as (H1 & H2 & H3 & H4 & H5); auto.
+    + rewrite Nx. cbn. now apply Forall_vdel.
+    + rewrite OU. rewrite app_assoc. now apply Permutation_app_tail.
+    + intros id' Hin. apply in_app_or in Hin as [Hin | [<- | []]].
+      * destruct (Jr _ Hin) as (rg & R1 & R2). exists rg. split; [exact R1|]. rewrite Ox. now apply sdat_ranges_app_some.
+      * exists (noframe_rg sq). split; [exact P1|]. rewrite Ox.
+        rewrite sdat_ranges_app_none.
+        -- destruct (noframe_rg sq) as [a b]. now apply sdat_ranges_new.
+        -- intros u Hu. apply (Dis (id, k, du, sq)); [now left|]. eapply Permutation_in; [exact Js | exact Hu].
+    + intros r Hr. destruct (Jp r (or_intror Hr)) as [Q1 Q2]. split; [exact Q1|].
+      intros dd Vd. rewrite Nx in Vd. cbn in Vd. rewrite vget_vdel_other in Vd; [now apply Q2|].
+      rewrite atom_eqb_sym. apply Dist. now apply in_map.
+    + intros r u Hr Hu. rewrite app_assoc in Hu. apply in_app_or in Hu as [Hu | [<- | []]].
+      * apply (Dis r); [now right | exact Hu].
+      * apply Dist. now apply in_map.
+    + split; [|split; [|split; [|split]]].
+      * simpl map. rewrite <- app_assoc in H1. exact H1.
+      * intros id' Hin. apply H2. simpl map in Hin. now rewrite <- app_assoc.
+      * rewrite H3, Ox, !out_uids_app. rewrite (out_uids_sres_only _ _ L) by reflexivity. cbn. now rewrite app_nil_r.
+      * rewrite H4, Nx. reflexivity.
+      * congruence.
+Qed.
